@@ -186,6 +186,7 @@ type linEnv struct {
 	choices map[string]int
 	guards  []*Formula
 	root    *Ctx
+	anyOf   bool // the facts are alternatives: in every case at least one of them must hold
 }
 
 // linTerm linearises an integer term under the current choices.
@@ -470,6 +471,14 @@ func (c *Ctx) EntailsLinear(pc *Formula, facts []LinFact) (bool, string, error) 
 	return c.entailsLinearRec(env, pc, facts, 0)
 }
 
+// EntailsLinearAny: in every case (assignment of the relevant comparison atoms, choice of helper
+// return sites and φ edges) at least one of the facts is entailed. Sound for the disjunction;
+// incomplete when the disjunction holds over a case without one disjunct holding on all of it.
+func (c *Ctx) EntailsLinearAny(pc *Formula, facts []LinFact) (bool, string, error) {
+	env := &linEnv{choices: map[string]int{}, root: c, anyOf: true}
+	return c.entailsLinearRec(env, pc, facts, 0)
+}
+
 func (c *Ctx) entailsLinearRec(env *linEnv, pc *Formula, facts []LinFact, depth int) (bool, string, error) {
 	if depth > 12 {
 		return false, "", fmt.Errorf("too many case splits")
@@ -484,7 +493,7 @@ func (c *Ctx) entailsLinearRec(env *linEnv, pc *Formula, facts []LinFact, depth 
 	var latoms []latom
 	split := func(nc *needChoice) (bool, string, error) {
 		for i := 0; i < nc.n; i++ {
-			sub := &linEnv{choices: map[string]int{}, root: env.root, guards: append(append([]*Formula{}, env.guards...), nc.guard(i))}
+			sub := &linEnv{choices: map[string]int{}, root: env.root, guards: append(append([]*Formula{}, env.guards...), nc.guard(i)), anyOf: env.anyOf}
 			for k, v := range env.choices {
 				sub.choices[k] = v
 			}
@@ -718,6 +727,23 @@ func (c *Ctx) entailsLinearRec(env *linEnv, pc *Formula, facts []LinFact, depth 
 			}
 			if !feasible(cc) {
 				continue // this case is arithmetically impossible
+			}
+			if env.anyOf {
+				some := false
+				var texts []string
+				for _, lf := range lfacts {
+					neg := leq(lf.b, lf.a, -lf.k-1, "")
+					if !feasible(append(append([]Constraint{}, cc...), neg)) {
+						some = true
+						break
+					}
+					texts = append(texts, lf.text)
+				}
+				if !some {
+					failure = fmt.Sprintf("none of [%s] is entailed when %s (case choices %v)", strings.Join(texts, " | "), renderAssignment(full, asg), env.choices)
+					return false
+				}
+				continue
 			}
 			for _, lf := range lfacts {
 				if lf.held != nil {
